@@ -49,6 +49,7 @@ type Rec struct {
 	ModelsStatus func() int
 	HealthStatus int
 	inflight     int64
+	noKA         bool
 }
 
 // NewRec starts a recording backend.
@@ -83,9 +84,17 @@ func (b *Rec) Up() error {
 	}
 	b.ln = ln
 	b.srv = &http.Server{Handler: http.HandlerFunc(b.handle), ReadHeaderTimeout: 30 * time.Second}
+	if b.noKA {
+		b.srv.SetKeepAlivesEnabled(false)
+	}
 	go b.srv.Serve(ln)
 	return nil
 }
+
+// NoKeepAlive makes the backend close every connection after one exchange, so that taking it Down
+// never leaves the proxy with an idle connection that dies under its next request (that outcome, a
+// connection closed without an answer, is not the clean refusal Down is meant to produce).
+func (b *Rec) NoKeepAlive() { b.noKA = true; b.srv.SetKeepAlivesEnabled(false) }
 
 // Seen returns the recorded requests.
 func (b *Rec) Seen() []*Seen {
